@@ -1,5 +1,6 @@
 import TinsModel.Wire.Chain.FixIp
 import TinsModel.Wire.Chain.FixTransport
+import TinsModel.Wire.Chain.FixL2
 /-
   Second-serialization fixed point, part 3: **the one-layer step for every covered class** (`fix_all`) over the interface the
   registry uses.
@@ -19,58 +20,19 @@ open Tins.Wire.L2 (layerView splitRaw stripView padOf ViewEq IsTail TailInner cx
 /-- classes `fix_all` covers so far -/
 def FixCov : AnyObj → Prop
   | .raw _ => True
+  | .l2 _ => True
   | .ip _ => True
   | .tr _ => True
   | _ => False
 
-/-- `append_padding_` of a Dot1Q is object state that is not on the wire (KF-C04-L2-4); parsed objects never have it -/
-def NoApp (o : AnyObj) : Prop := ∀ q, o = .l2 (.dot1q q) → q.appendPadding = false
-
-/-- the conclusion of `fix_all` -/
-def FixStep (x x' : AnyObj) (os os' : List AnyObj) (cx' : Ctx) (io out : Bytes) (k e2 : Nat) : Prop :=
-  x'.hdr + x'.trl (sizeOfStack os') + e2 = x.hdr + x.trl (sizeOfStack os) + (if e2 = 0 then 0 else k) ∧
-  ∀ region' : Bytes, region'.length = x'.hdr + sizeOfStack os' + x'.trl (sizeOfStack os') →
-    (region'.drop x'.hdr).take (sizeOfStack os') = io ++ List.replicate e2 0 →
-    x'.write cx' region' = .ok (out ++ List.replicate (if e2 = 0 then 0 else k) 0)
-
-/-- classes without a trailer below which no padding arrives: the class lemma gives the step -/
-theorem fix_of_simple (x x' : AnyObj) (os os' : List AnyObj) (cx' : Ctx) (region io out : Bytes) (k : Nat)
-    (ht : x.trl (sizeOfStack os) = 0)
-    (hlen : region.length = x.hdr + sizeOfStack os + x.trl (sizeOfStack os))
-    (hio : (region.drop x.hdr).take (sizeOfStack os) = io)
-    (hsz : sizeOfStack os' = sizeOfStack os + 0)
-    (hcls : x'.hdr = x.hdr ∧ (∀ n, x'.trl n = 0) ∧
-      ∀ region' : Bytes, region'.length = region.length → region'.drop x.hdr = region.drop x.hdr →
-        x'.write cx' region' = .ok out) :
-    FixStep x x' os os' cx' io out k 0 := by
-  obtain ⟨hh, ht', hwr⟩ := hcls
-  refine ⟨by rw [hh, ht', ht]; simp, ?_⟩
-  intro region' hlen' hio'
-  rw [hh, ht', hsz, Nat.add_zero] at hlen'
-  rw [hh, hsz, Nat.add_zero, List.replicate_zero, List.append_nil] at hio'
-  rw [ht] at hlen
-  simp only [if_pos, List.replicate_zero, List.append_nil]
-  apply hwr region' (by omega)
-  have h1 : (region'.drop x.hdr).take (sizeOfStack os) = region'.drop x.hdr :=
-    List.take_of_length_le (by simp only [List.length_drop]; omega)
-  have h2 : (region.drop x.hdr).take (sizeOfStack os) = region.drop x.hdr :=
-    List.take_of_length_le (by simp only [List.length_drop]; omega)
-  rw [← h1, ← h2, hio, hio']
-
-/-- under the name of a class that tolerates no padding nothing follows the region -/
-theorem k_zero_of_not_padOK {ps : List LayerInfo} {n : String} {x : AnyObj} {k : Nat} (hk : PadCondN ps n x k)
-    (h1 : ¬ PadOK x) (h2 : isEapol x = false) : k = 0 := by
-  rcases hk with h | ⟨_, h | ⟨he, _⟩⟩
-  · exact h
-  · exact absurd h h1
-  · rw [h2] at he; cases he
-
 /-- **the one-layer step of the second-serialization fixed point, every covered class** -/
 theorem fix_all (ps ps' : List LayerInfo) (x : AnyObj) (os os' : List AnyObj) (hok : LayerOK x os) (hcov : FixCov x)
-    (_hna : NoApp x) (_hpay : (splitRaw (x :: os)).2 ≠ [])
+    (hna : NoApp x) (_hpay : (splitRaw (x :: os)).2 ≠ [])
     (region io : Bytes)
     (hlen : region.length = x.hdr + sizeOfStack os + x.trl (sizeOfStack os))
-    (hio : (region.drop x.hdr).take (sizeOfStack os) = io) (_hiol : io.length = sizeOfStack os)
+    (hio : (region.drop x.hdr).take (sizeOfStack os) = io) (hiol : io.length = sizeOfStack os)
+    (hnil : os = [] → io = []) (hraw : ∀ p, os = [.raw p] → io = p)
+    (hpos : ∀ y r, nextA os = .obj y r → 0 < io.length) (hnostp : ∀ s r, os ≠ .app (.stp s) :: r)
     (out : Bytes) (hw : x.write (cxOf ps os) region = .ok out)
     (n : String) (k : Nat) (hn : EntryName n x) (hk : PadCondN ps n x k)
     (x' : AnyObj) (inner : Inner) (hp : parseOne n (out ++ List.replicate k 0) = .ok (x', inner))
@@ -82,7 +44,48 @@ theorem fix_all (ps ps' : List LayerInfo) (x : AnyObj) (os os' : List AnyObj) (h
   have hsim : CtxSimA (cxOf ps os) (cxOf ps' os') := ctxSimA_cxOf hps hkeys
   cases x with
   | raw p => exact hside.elim
-  | l2 o => exact hcov.elim
+  | l2 o =>
+    have hk0 : ¬ L2.EtherTier o → k = 0 := fun hne => by
+      rcases hk with h | ⟨_, h | ⟨he, _⟩⟩
+      · exact h
+      · exact absurd h hne
+      · cases he
+    have hname : n = (L2.info o).1 := by rcases hn with h | h; exact h; exact h.elim
+    subst hname
+    have hna' : ∀ q, o = .dot1q q → q.appendPadding = false := fun q hq => hna q (by rw [hq])
+    have hid : x' = .l2 (L2.wr (cxOf ps os) o) ∧ L2.ObjInv (L2.wr (cxOf ps os) o) ∧ L2.Serializable (L2.wr (cxOf ps os) o) ∧
+        (∀ l, o = .llc l → (cxOf ps os).innerCls ≠ some "STP") := by
+      rcases linkAll_l2_cases o os hlink with ⟨y, r, rfl, hy, hl⟩ | ⟨y, r, nn, rfl, hy, hl⟩ | ⟨s, r, rfl, hl⟩ | hl
+      · have hfront : L2Front o := l2Front_of_netP o y hl
+        have hwi := wr_inv_front (cxOf ps (y :: r)) o hinv hfront
+        exact ⟨l2_wr_of_parse (cxOf ps (y :: r)) o hinv hfront region hlen k hk0 out hw x' inner hp, hwi.1, hwi.2,
+          fun l hl' => by subst hl'; exact hfront.elim⟩
+      · have hfront : L2Front o := l2Front_of_ether o hl
+        have hwi := wr_inv_front (cxOf ps (y :: r)) o hinv hfront
+        exact ⟨l2_wr_of_parse (cxOf ps (y :: r)) o hinv hfront region hlen k hk0 out hw x' inner hp, hwi.1, hwi.2,
+          fun l hl' => by subst hl'; exact hfront.elim⟩
+      · exact absurd rfl (hnostp s r)
+      · have hk' : k = 0 ∨ (ps ≠ [] ∧ L2.EtherTier o) := by
+          rcases hk with h | ⟨hps', h | ⟨he, _⟩⟩
+          · exact .inl h
+          · exact .inr ⟨hps', h⟩
+          · cases he
+        rcases L2.l2_step ps o os hinv hl k hk' region io hlen hio hiol hnil hraw
+          (fun y r h => hpos (.l2 y) r (by rw [h]; rfl)) with ⟨out2, x2, inner2, hw2, _, hp2, _, hx2, _⟩
+        have := out_unique hw2 hw; subst this
+        have hwi := L2.wr_inv ps o os hinv hl
+        refine ⟨by rw [← hx2]; exact l2_obj_of_parse hp2 hp, hwi.1, hwi.2, ?_⟩
+        intro l hl'
+        subst hl'
+        cases hnx : L2.next os with
+        | none => have := L2.next_none hnx; subst this; rw [L2.cxOf_innerCls_nil]; exact fun h => by cases h
+        | raw p => have := L2.next_raw hnx; rw [this, L2.cxOf_innerCls_raw]; decide
+        | l2 y r => rw [hnx] at hl; simp [L2.Link] at hl
+        | bad => rw [hnx] at hl; simp [L2.Link] at hl
+    obtain ⟨hx', hwi1, hwi2, hstp⟩ := hid
+    subst hx'
+    exact l2_fix (cxOf ps os) (cxOf ps' os') o os os' hinv hser ⟨hwi1, hwi2⟩ hna' hstp rfl rfl region io hlen hio out hw k hk0 hsim
+      e2 he2 hsz
   | ip6 o => exact hcov.elim
   | icmp o => exact hcov.elim
   | app o => exact hcov.elim
